@@ -14,6 +14,8 @@ import (
 	"fmt"
 	"net"
 	"net/http"
+	"os"
+	"strconv"
 	"strings"
 	"time"
 
@@ -450,6 +452,12 @@ func keepaliveScenarios(tier string) []weighted {
 					d := 1
 					if thorough {
 						d = 2
+					}
+					if v := os.Getenv("VERIF_C16_P"); v != "" {
+						p, _ = strconv.Atoi(v)
+					}
+					if v := os.Getenv("VERIF_C16_D"); v != "" {
+						d, _ = strconv.Atoi(v)
 					}
 					add(kcfg{mode: m, exec: e, ws: ws, gaps: gl, p: p, d: d})
 				}
